@@ -1,0 +1,14 @@
+package fox
+
+// Identifiers of the yield points offered to a deterministic simulator when the
+// package is built with the verif tag. They have no effect otherwise.
+const (
+	ptLocked     = iota + 1 // writer lock just taken, root not loaded yet
+	ptBeforeLoad            // before the atomic load of the current tree
+	ptAfterLoad             // after the atomic load of the current tree
+	ptCommit                // Txn.Commit, before the new tree is built and stored
+	ptStored                // Txn.Commit, new tree stored, writer lock still held
+	ptUnlocked              // writer lock released (commit or abort)
+	ptAbort                 // Txn.Abort, before the writer lock is released
+	ptRouteOpts             // NewRoute, route options applied, handler chain not built yet
+)
